@@ -85,3 +85,27 @@ def check_block_constants(ctx, facts, body, rule, cfg, expect_type, rule_atoms, 
                 ctx.violation(rule, "%s|snapshot|%s" % (rule, family),
                               "%s rejection does not carry the observed value" % family, body.loc(bb), config=cfg)
     return n
+
+
+def variant_is(asg, role, variants, name, const_roles=None):
+    """Does the value with role `role` equal enum variant `name` under the assignment?  Understands both forms a test can take:
+    a comparison with the variant constant (role pair `role` vs the constant's role, default the variant's name) and a match / matches!
+    on the value's discriminant.  True / False / None (not determined by this row)."""
+    cr = (const_roles or {}).get(name, name)
+    r = D.rel_of(asg, role, cr)
+    if r is not None:
+        return r == "="
+    # compared with ANOTHER variant constant and found equal -> not this one
+    for other in variants:
+        if other != name:
+            r2 = D.rel_of(asg, role, (const_roles or {}).get(other, other))
+            if r2 == "=":
+                return False
+            if r2 is not None and len(variants) == 2:
+                return True
+    d = asg["disc"].get(role)
+    if d is None:
+        return None
+    if d == "other":
+        return None
+    return variants[d] == name if isinstance(d, int) and d < len(variants) else None
